@@ -101,8 +101,8 @@ def classify(run, lmap, fns_by_key):
         if body_level:
             props |= set(safety)
         if not props:
-            # failure in spec/shim/lemma text or in a fn without any tag: treat as shared infrastructure
-            props |= set(SHARED)
+            # failure in spec/shim/lemma text or in generated code without a tag: every claimed property rests on it
+            props |= set(CONFIG["claimed"])
         name = label if (label and part in ("ensures", "theorem")) else None
         if name is None:
             base = (key or (fnmeta or {}).get("file", "?"))
@@ -161,14 +161,14 @@ def scan_assumptions(text):
         out[k] = len(re.findall(re.escape(k), text))
     return out
 
-def build_unit(src, out_path, stub_fns=(), drop_uses=()):
+def build_unit(src, out_path, stub_fns=(), drop_uses=(), drop_contract_fns=()):
     os.environ["VERIF_REPO_SRC"] = src
     extract.REPO_SRC = src
     specs = sorted(glob.glob(os.path.join(VERIF, "contracts", "*.vspec")))
     shims = sorted(glob.glob(os.path.join(VERIF, "shims", "*.rs"))) + sorted(glob.glob(os.path.join(VERIF, "specs", "*.rs")))
     rx = re.compile(CONFIG["exclude"]) if CONFIG.get("exclude") else None
     inc = (lambda rel: not rx.search(rel)) if rx else None
-    return extract.build(inc, (), specs, shims, out_path, stub_fns=stub_fns, drop_uses=drop_uses)
+    return extract.build(inc, (), specs, shims, out_path, stub_fns=stub_fns, drop_uses=drop_uses, drop_contract_fns=drop_contract_fns)
 
 def obligations_for(ctx):
     """named obligations per property: labelled ensures clauses + one body-safety obligation per fn tagged safety=..."""
@@ -213,13 +213,13 @@ def main(argv):
     baseline = {}
     bp = os.path.join(VERIF, "baseline_fns.json")
     if os.path.exists(bp): baseline = json.load(open(bp))
-    stub = set(); drop_uses = set(); stub_reason = {}
+    stub = set(); drop_uses = set(); stub_reason = {}; drop_contracts = set()
     runs = []; undecided = None; base = None
     for attempt in range(10):
         try:
-            text, lines_meta, ctx = build_unit(a.src, unit, stub, drop_uses)
+            text, lines_meta, ctx = build_unit(a.src, unit, stub, drop_uses, drop_contracts)
         except extract.ExtractError as e:
-            print("UNDECIDED: extraction failed: %s" % e); return 2
+            return global_fallback(a, props, claimed, "extraction failed: %s" % e)
         lmap = LineMap(lines_meta)
         fns_by_key = {"%s|%s::%s" % (f["file"], f["impl"], f["fn"]): f for f in ctx.fn_index}
         changed = [k for k, f in fns_by_key.items() if baseline and baseline.get(k) != f["body_hash"] and not f["external_body"] and k not in stub]
@@ -236,6 +236,9 @@ def main(argv):
                     k = "%s|%s::%s" % (m["file"], m.get("impl", "-"), m["fn"])
                     if k not in stub and not fns_by_key.get(k, {}).get("external_body"):
                         stub.add(k); stub_reason[k] = "unsupported construct: %s" % fe["message"][:160]; progressed = True
+                    elif m.get("part") in ("requires", "ensures", "sig") and k not in drop_contracts:
+                        # the contract itself does not type-check against the changed signature: drop it, keep the function stubbed
+                        drop_contracts.add(k); stub.add(k); stub_reason[k] = "contract no longer fits the changed signature: %s" % fe["message"][:120]; progressed = True
                 elif m and m.get("part") == "item" and m.get("use_norm"):
                     if (m["file"], m["use_norm"]) not in drop_uses:
                         drop_uses.add((m["file"], m["use_norm"])); progressed = True
@@ -258,7 +261,7 @@ def main(argv):
     else:
         undecided = "could not isolate unsupported constructs after 10 attempts"
     if undecided:
-        print("UNDECIDED: %s" % undecided); return 2
+        return global_fallback(a, props, claimed, undecided)
     if a.tier == "thorough":
         names = [set(f["obligation"] for f in base)]
         for sd in (1 + seed, 7 + seed, 13 + seed):
@@ -290,6 +293,11 @@ def main(argv):
             f = fns_by_key.get(k)
             if not f: continue
             ps = set(f.get("safety", []))
+            if k in drop_contracts:
+                for (sf, simpl, sname), fs in ctx.specs.fns.items():
+                    if "%s|%s::%s" % (sf, simpl, sname) == k:
+                        ps |= set(fs.safety)
+                        for l, _ in fs.requires + fs.ensures: ps |= set(label_props(l))
             for l in f.get("labels", []): ps |= set(label_props(l))
             if not f.get("labels") and not f.get("safety"): ps |= set(SHARED)
             if pid in ps or k in cone.get(pid, ()): out_of_reach.append((k, stub_reason.get(k, "")))
@@ -344,7 +352,10 @@ def main(argv):
                            "failed_obligations": [dict({k: f[k] for k in ("obligation", "kind", "fn", "label", "message", "src_file", "src_line", "text", "rendered")}, needs_witness=weak(f)) for f in new_fails],
                            "functions_outside_verifier": [{"fn": k, "reason": why} for k, why in out_of_reach],
                            "witness": witness, "verifier_cmd": runs[0]["cmd"], "unit": unit}, open(replay_path, "w"), indent=1)
-                for f in new_fails[:10]:
+                seen_o = set()
+                for f in new_fails:
+                    if f["obligation"] in seen_o or len(seen_o) >= 10: continue
+                    seen_o.add(f["obligation"])
                     print("FAILED-OBLIGATION: property=%s %s (%s) at %s:%s" % (pid, f["obligation"], f["kind"], f["src_file"], f["src_line"]))
                 for k, why in out_of_reach:
                     print("OUT-OF-REACH: property=%s %s (%s) - decided by the bounded witness search only" % (pid, k, why))
@@ -389,6 +400,25 @@ def run_kani(src):
 
 KANI_PROPS = {"C07": "header_", "C08": "le64_"}
 KANI_FILES = ("core/header.rs", "core/version/", "core/purpose/", "core/common/pre_authentication_encoding.rs")
+
+def global_fallback(a, props, claimed, why):
+    """the verifier could not take the changed tree at all: the bounded concrete witness search is the only thing left.
+    A concrete failing input against the real code is reported as a violation; otherwise the property is undecided (exit 2)."""
+    rc = 2
+    for pid in props:
+        if pid not in claimed: continue
+        witness = None if a.no_replay else find_witness(pid, [], a.src)
+        if witness and witness.get("found"):
+            rdir = os.path.join(VERIF, "replays"); os.makedirs(rdir, exist_ok=True)
+            rp = os.path.join(rdir, "%s.json" % pid)
+            json.dump({"property": pid, "failed_obligations": [], "verifier_status": "undecided: " + why, "witness": witness,
+                       "note": "no obligation could be generated for the changed tree; the violation is established by the concrete failing input below (bounded search, DESIGN 1.5)"}, open(rp, "w"), indent=1)
+            print("OUT-OF-REACH: property=%s whole unit (%s) - decided by the bounded witness search only" % (pid, why[:200]))
+            print("WITNESS: %s" % witness.get("witness"))
+            print("VIOLATION property=%s replay=%s" % (pid, rp)); rc = 1
+        else:
+            print("UNDECIDED: %s%s" % (why[:600], "" if a.no_replay else "; the bounded witness search found no failing input for %s" % pid))
+    return rc
 
 def find_witness(pid, fails, src):
     """run the concrete witness finder of the replay crate against the real crate (only after a refutation)"""
